@@ -419,6 +419,90 @@ fn progress_thread_exit<T: Payload>(c: &Case, cx: &mut Ctx) -> Outcome {
     Outcome::Held
 }
 
+// L. lateness of timed operations. The ONE place where durations are compared: a timed operation that nobody serves
+// must come back soon after its deadline. "Soon" is judged against a control thread that merely sleeps for the same
+// duration at the same moment (machine load delays both alike), three rounds, and only a difference of more than
+// max(100 ms, a third of the duration) in EVERY round counts (unchanged code: well under a millisecond).
+fn fam_lateness<T: Payload>(c: &Case, cx: &mut Ctx) -> Outcome {
+    if cfg!(miri) {
+        return Outcome::Held;
+    }
+    let d_ms: u64 = [150, 400, 150, 400][c.a as usize % 4];
+    let kind = c.b % 3; // 0 recv_timeout, 1 send_timeout, 2 send_option_timeout
+    let asyncf = c.d & 4 == 4;
+    let l = payload::ledger();
+    l.reset();
+    let d = Duration::from_millis(d_ms);
+    let mut diffs: Vec<i64> = vec![];
+    let mut results: Vec<String> = vec![];
+    for round in 0..3u64 {
+        let (s, r) = kverif::exec::new_chan::<T>(Some(0), asyncf);
+        let go = Arc::new(AtomicBool::new(false));
+        let ctl = {
+            let go = go.clone();
+            std::thread::spawn(move || {
+                while !go.load(Ordering::Acquire) {
+                    std::hint::spin_loop();
+                }
+                let t0 = std::time::Instant::now();
+                std::thread::sleep(d);
+                t0.elapsed().as_micros() as i64 - d.as_micros() as i64
+            })
+        };
+        let op = {
+            let go = go.clone();
+            let v = T::make(payload::FIRST_UNIQUE + round, payload::pattern(round));
+            std::thread::spawn(move || {
+                while !go.load(Ordering::Acquire) {
+                    std::hint::spin_loop();
+                }
+                let t0 = std::time::Instant::now();
+                let res = match kind {
+                    0 => {
+                        drop(v);
+                        format!("{:?}", r.sy().recv_timeout(d).map(|x| x.tag()))
+                    }
+                    1 => format!("{:?}", s.sy().send_timeout(v, d)),
+                    _ => {
+                        let mut o = Some(v);
+                        format!("{:?}", s.sy().send_option_timeout(&mut o, d))
+                    }
+                };
+                (t0.elapsed().as_micros() as i64 - d.as_micros() as i64, res, s, r)
+            })
+        };
+        go.store(true, Ordering::Release);
+        let late_c = ctl.join().unwrap();
+        let (late_k, res, s, r) = op.join().unwrap();
+        drop((s, r));
+        results.push(res);
+        diffs.push(late_k - late_c);
+    }
+    cell(cx, format!("lateness/{}ms/{}/{}", d_ms, ["RecvTimeout", "SendTimeout", "SendOptTimeout"][kind as usize], T::NAME));
+    let bound = (d_ms as i64 * 1000 / 3).max(100_000);
+    let best = *diffs.iter().min().unwrap();
+    *cx.cells.entry("lateness/best-extra-lateness-us(max over cases)".to_string()).or_insert(0) = (*cx.cells.get("lateness/best-extra-lateness-us(max over cases)").unwrap_or(&0)).max(best.max(0) as u64);
+    if results.iter().any(|x| !x.contains("Timeout")) {
+        return Outcome::Violated(vec![("C13".into(), format!("a timed operation that nobody served ended with {:?}, the reference channel gives Timeout", results))]);
+    }
+    if best > bound {
+        return Outcome::Violated(vec![(
+            "C13".into(),
+            format!("{} with a {} ms deadline that nobody served came back {} / {} / {} us later than a thread that merely slept for the same time, in three rounds (allowed: {} us): Timeout is not reported once the deadline has passed", ["recv_timeout", "send_timeout", "send_option_timeout"][kind as usize], d_ms, diffs[0], diffs[1], diffs[2], bound),
+        )]);
+    }
+    Outcome::Held
+}
+fn space_lateness(cs: &mut Vec<Case>, class: &'static str) {
+    for a in 0..2 {
+        for b in 0..3 {
+            for d in [0, 4] {
+                cs.push(Case { fam: "lateness", class, cap: Some(0), a, b, c: 0, d, seed: 0 });
+            }
+        }
+    }
+}
+
 fn fam_progress<T: Payload>(c: &Case, cx: &mut Ctx) -> Outcome {
     if c.a >= 8 {
         return progress_thread_exit::<T>(c, cx);
@@ -1646,6 +1730,7 @@ fn space_random(cs: &mut Vec<Case>, class: &'static str) {
 fn run_case<T: Payload>(c: &Case, cx: &mut Ctx) -> Outcome {
     match c.fam {
         "random" => fam_random::<T>(c, cx),
+        "lateness" => fam_lateness::<T>(c, cx),
         "stream" => fam_stream::<T>(c, cx),
         "tight" => fam_tight::<T>(c, cx),
         "handoff" => fam_handoff::<T>(c, cx),
@@ -1679,6 +1764,7 @@ fn space(fam: &str, classes: &[&'static str]) -> Vec<Case> {
             "tight" => space_tight(&mut v, class),
             "stream" => space_stream(&mut v, class),
             "random" => space_random(&mut v, class),
+            "lateness" => space_lateness(&mut v, class),
             _ => panic!("unknown family {}", fam),
         }
     }
